@@ -119,7 +119,7 @@ where
         let port_7ffd = tmp[2];
         let _trdos_paged = tmp[3];
         // This will alsto setup required memory map before banks restore
-        emulator.controller.write_7ffd(port_7ffd);
+        emulator.controller.restore_7ffd(port_7ffd);
 
         // Go to the previous position
         asset.seek(SeekFrom::Start(SNA_HEADER_SIZE))?;
